@@ -9,7 +9,7 @@ import XsdataModel.Xml.TblNsEnv
 import XsdataModel.Spec.Hyps
 
 namespace Proofs.MapInv
-open Py Xs.Ns Xs.Sax Spec.XmlNs Spec.Hyps
+open Py Xs.Ns Xs.Sax Xs.Writer Spec.XmlNs Spec.Hyps
 
 structure EnvOK (env : NsEnv) : Prop where
   xmlNs : env.saxXmlNs = xmlNsUri
@@ -25,7 +25,6 @@ structure MapOK (env : NsEnv) (d : Option Str) (M : NsMap) : Prop where
   nodup : NoDupKeys M
   decl : ∀ e ∈ M, declOK e = true
   dflt : ∀ u, dget M none = some u → u = [] ∨ some u = d
-  nodflt : ∀ s u, dget M (some s) = some u → dget M none ≠ some u
 
 /-- `M'` is `M` with new prefixed entries appended -/
 def Ext (M M' : NsMap) : Prop := ∃ X : NsMap, M' = M ++ X ∧ ∀ e ∈ X, e.1 ≠ none
@@ -47,6 +46,39 @@ theorem prefixExists_false (u : Str) (M : NsMap) (h : prefixExists u M = false) 
     simp only [prefixExists, List.any_eq_true, decide_eq_true_eq]
     exact ⟨e, he, heq⟩
   rw [h] at this; cases this
+
+theorem prefixedExists_false (u : Str) (M : NsMap) (h : prefixedExists u M = false) :
+    ∀ s, s ≠ [] → (some s, u) ∉ M := by
+  intro s hs hm
+  have : prefixedExists u M = true := by
+    simp only [prefixedExists, List.any_eq_true, Bool.and_eq_true, decide_eq_true_eq]
+    refine ⟨(some s, u), hm, ?_, rfl⟩
+    cases s with
+    | nil => exact absurd rfl hs
+    | cons _ _ => rfl
+  rw [h] at this; cases this
+
+theorem prefixedExists_of_prefixExists_false (u : Str) (M : NsMap) (h : prefixExists u M = false) :
+    prefixedExists u M = false := by
+  cases hp : prefixedExists u M with
+  | false => rfl
+  | true =>
+    simp only [prefixedExists, List.any_eq_true, Bool.and_eq_true, decide_eq_true_eq] at hp
+    obtain ⟨e, he, _, heq⟩ := hp
+    exact absurd heq (prefixExists_false u M h e he)
+
+theorem prefixedExists_true (u : Str) (M : NsMap) (h : prefixedExists u M = true) : ∃ s, (some s, u) ∈ M := by
+  simp only [prefixedExists, List.any_eq_true, Bool.and_eq_true, decide_eq_true_eq] at h
+  obtain ⟨e, he, hk, heq⟩ := h
+  obtain ⟨k, v⟩ := e
+  cases k with
+  | none => simp at hk
+  | some s => simp only at heq; subst heq; exact ⟨s, he⟩
+
+theorem prefixedExists_of_mem (u s : Str) (M : NsMap) (hs : s ≠ []) (h : (some s, u) ∈ M) : prefixedExists u M = true := by
+  cases hp : prefixedExists u M with
+  | true => rfl
+  | false => exact absurd h (prefixedExists_false u M hp s hs)
 
 theorem getEnum_some (env : NsEnv) (u p : Str) (h : getEnum env u = some p) : (u, p) ∈ env.enum ∧ u ≠ [] := by
   unfold getEnum at h
@@ -181,11 +213,11 @@ theorem generatePrefix_shape (env : NsEnv) (u : Str) (M : NsMap) :
 
 /-- `generate_prefix` on a URI without prefix appends one fresh entry and keeps the invariant -/
 theorem generatePrefix_ok (env : NsEnv) (henv : EnvOK env) (d : Option Str) (u : Str) (M : NsMap)
-    (hM : MapOK env d M) (hu : uriOK u = true) (hne : prefixExists u M = false) :
+    (hM : MapOK env d M) (hu : uriOK u = true) (hne : prefixedExists u M = false) :
     (generatePrefix env u M).2 = M ++ [(some (generatePrefix env u M).1, u)]
     ∧ MapOK env d (generatePrefix env u M).2
     ∧ dget M (some (generatePrefix env u M).1) = none := by
-  have hvals := prefixExists_false u M hne
+  have hvals := prefixedExists_false u M hne
   have huri : u ≠ [] ∧ uriSafe u = true ∧ u ≠ xmlnsNsUri := by
     simp only [uriOK, Bool.and_eq_true, Bool.not_eq_true', bne_iff_ne, ne_eq] at hu
     refine ⟨?_, hu.1.2, hu.2⟩
@@ -223,7 +255,8 @@ theorem generatePrefix_ok (env : NsEnv) (henv : EnvOK env) (d : Option Str) (u :
               have h2 := hdv.2
               simp at h2
               exact h2
-            exact absurd this (hvals (some xmlPrefix, v) (dget_some_mem _ _ _ hd))
+            subst this
+            exact absurd (dget_some_mem _ _ _ hd) (hvals xmlPrefix (by decide))
         have : (generatePrefix env xmlNsUri M).1 = xmlPrefix := by
           unfold generatePrefix
           simp only [hget, hxfree, Bool.false_eq_true, if_false]
@@ -236,7 +269,7 @@ theorem generatePrefix_ok (env : NsEnv) (henv : EnvOK env) (d : Option Str) (u :
       rw [h1, h2]
   rw [happ]
   refine ⟨rfl, ?_, hfreshp⟩
-  refine ⟨NoDupKeys_append_single M _ _ hM.nodup hfreshp, ?_, ?_, ?_⟩
+  refine ⟨NoDupKeys_append_single M _ _ hM.nodup hfreshp, ?_, ?_⟩
   · intro e he
     rcases List.mem_append.mp he with h | h
     · exact hM.decl e h
@@ -246,22 +279,6 @@ theorem generatePrefix_ok (env : NsEnv) (henv : EnvOK env) (d : Option Str) (u :
     cases hm : dget M none with
     | some v => rw [hm] at h; cases h; exact hM.dflt _ hm
     | none => rw [hm] at h; simp [dget] at h
-  · intro s u' h hn
-    have hnone : dget (M ++ [(some p, u)]) none = dget M none := by
-      rw [dget_append]
-      cases dget M none <;> simp [dget]
-    rw [hnone] at hn
-    rw [dget_append] at h
-    cases hm : dget M (some s) with
-    | some v => rw [hm] at h; cases h; exact hM.nodflt s _ hm hn
-    | none =>
-      rw [hm] at h
-      simp only [dget] at h
-      by_cases hps : some p = some s
-      · simp [hps] at h
-        subst h
-        exact hvals (none, _) (dget_some_mem _ _ _ hn) rfl
-      · simp [hps] at h
 
 theorem findPrefix_some (u : Str) (M : NsMap) (p : Pfx) (h : findPrefix u M = some p) : (p, u) ∈ M := by
   induction M with
@@ -297,7 +314,7 @@ theorem loadPrefix_ok (env : NsEnv) (henv : EnvOK env) (d : Option Str) (u : Str
     exact ⟨Ext.refl M, hM, NoDupKeys_dget_of_mem M p u hM.nodup (findPrefix_some u M p hf)⟩
   | none =>
     have hne := findPrefix_none u M hf
-    obtain ⟨h1, h2, h3⟩ := generatePrefix_ok env henv d u M hM hu hne
+    obtain ⟨h1, h2, h3⟩ := generatePrefix_ok env henv d u M hM hu (prefixedExists_of_prefixExists_false u M hne)
     simp only []
     refine ⟨⟨[(some (generatePrefix env u M).1, u)], h1, by simp⟩, h2, ?_⟩
     rw [h1, dget_append_right _ _ _ h3]
@@ -306,7 +323,7 @@ theorem loadPrefix_ok (env : NsEnv) (henv : EnvOK env) (d : Option Str) (u : Str
 end Proofs.MapInv
 
 namespace Proofs.MapInv
-open Py Xs.Ns Xs.Sax Spec.XmlNs Spec.Hyps
+open Py Xs.Ns Xs.Sax Xs.Writer Spec.XmlNs Spec.Hyps
 
 /-! ### Clark notation vs `split_qname` -/
 
@@ -421,7 +438,7 @@ theorem clark_none_ns (q l : Str) (h : clark q = some (none, l)) : isNCName l = 
 end Proofs.MapInv
 
 namespace Proofs.MapInv
-open Py Xs.Ns Xs.Sax Spec.XmlNs Spec.Hyps
+open Py Xs.Ns Xs.Sax Xs.Writer Spec.XmlNs Spec.Hyps
 
 /-! ### values -/
 
@@ -560,28 +577,67 @@ theorem addNamespace_ok (env : NsEnv) (henv : EnvOK env) (d : Option Str) (uo : 
       exact ⟨Ext.refl M, hM, by intro u' h; cases h; exact hp⟩
     · have hp' : prefixExists u M = false := by simpa using hp
       simp only [hne, hp', Bool.not_false, Bool.and_self, if_true]
-      obtain ⟨h1, h2, _⟩ := generatePrefix_ok env henv d u M hM hu hp'
+      obtain ⟨h1, h2, _⟩ := generatePrefix_ok env henv d u M hM hu (prefixedExists_of_prefixExists_false u M hp')
       refine ⟨⟨[(some (generatePrefix env u M).1, u)], h1, by simp⟩, h2, ?_⟩
       intro u' h; cases h
       rw [h1]
       exact prefixExists_of_mem u _ (some (generatePrefix env u M).1, u) (by simp) rfl
 
+theorem prefixedExists_ext (u : Str) (M M' : NsMap) (h : Ext M M') (hp : prefixedExists u M = true) :
+    prefixedExists u M' = true := by
+  obtain ⟨X, rfl, _⟩ := h
+  simp only [prefixedExists, List.any_eq_true] at hp ⊢
+  obtain ⟨e, he, heq⟩ := hp
+  exact ⟨e, List.mem_append_left _ he, heq⟩
+
+theorem generatePrefix_ne_nil (env : NsEnv) (henv : EnvOK env) (u : Str) (M : NsMap) :
+    (generatePrefix env u M).1 ≠ [] := by
+  rcases generatePrefix_shape env u M with hs | ⟨k, hk⟩
+  · obtain ⟨hmem, _⟩ := getEnum_some env u _ hs
+    have hent := henv.entries _ hmem
+    simp only [enumEntryOK, Bool.and_eq_true] at hent
+    exact isNCName_ne_nil _ hent.1.1.1
+  · rw [hk]; simp [nsLit]
+
+theorem addNamespaceP_ok (env : NsEnv) (henv : EnvOK env) (d : Option Str) (uo : Option Str) (M : NsMap)
+    (hM : MapOK env d M) (hu : nsPartOK uo = true) :
+    Ext M (addNamespaceP env uo M) ∧ MapOK env d (addNamespaceP env uo M)
+    ∧ ∀ u, uo = some u → prefixedExists u (addNamespaceP env uo M) = true := by
+  cases uo with
+  | none => exact ⟨Ext.refl M, hM, by simp⟩
+  | some u =>
+    simp only [nsPartOK] at hu
+    have hne : u.isEmpty = false := by
+      simp only [uriOK, Bool.and_eq_true, Bool.not_eq_true'] at hu
+      exact hu.1.1
+    unfold addNamespaceP
+    by_cases hp : prefixedExists u M = true
+    · simp only [hne, hp, Bool.not_false, Bool.not_true, Bool.and_false]
+      exact ⟨Ext.refl M, hM, by intro u' h; cases h; exact hp⟩
+    · have hp' : prefixedExists u M = false := by simpa using hp
+      simp only [hne, hp', Bool.not_false, Bool.and_self, if_true]
+      obtain ⟨h1, h2, _⟩ := generatePrefix_ok env henv d u M hM hu hp'
+      refine ⟨⟨[(some (generatePrefix env u M).1, u)], h1, by simp⟩, h2, ?_⟩
+      intro u' h; cases h
+      rw [h1]
+      exact prefixedExists_of_mem u _ _ (generatePrefix_ne_nil env henv u M) (by simp)
+
 theorem addAttrNamespaces_ok (env : NsEnv) (henv : EnvOK env) (d : Option Str) (A : List (EName × Option Str)) :
     ∀ (M : NsMap), MapOK env d M → (∀ e ∈ A, nsPartOK e.1.1 = true) →
     Ext M (addAttrNamespaces env A M) ∧ MapOK env d (addAttrNamespaces env A M)
-    ∧ ∀ e ∈ A, ∀ u, e.1.1 = some u → prefixExists u (addAttrNamespaces env A M) = true := by
+    ∧ ∀ e ∈ A, ∀ u, e.1.1 = some u → prefixedExists u (addAttrNamespaces env A M) = true := by
   induction A with
   | nil => intro M hM _; exact ⟨Ext.refl M, hM, by simp⟩
   | cons a r ih =>
     obtain ⟨n, v⟩ := a
     intro M hM h
-    obtain ⟨e1, ok1, p1⟩ := addNamespace_ok env henv d n.1 M hM (h (n, v) (by simp))
-    obtain ⟨e2, ok2, p2⟩ := ih (addNamespace env n.1 M) ok1 (fun e he => h e (List.mem_cons_of_mem _ he))
+    obtain ⟨e1, ok1, p1⟩ := addNamespaceP_ok env henv d n.1 M hM (h (n, v) (by simp))
+    obtain ⟨e2, ok2, p2⟩ := ih (addNamespaceP env n.1 M) ok1 (fun e he => h e (List.mem_cons_of_mem _ he))
     simp only [addAttrNamespaces]
     refine ⟨e1.trans e2, ok2, ?_⟩
     intro e he u hu
     rcases List.mem_cons.mp he with rfl | hm
-    · exact prefixExists_ext u _ _ e2 (p1 u hu)
+    · exact prefixedExists_ext u _ _ e2 (p1 u hu)
     · exact p2 e hm u hu
 
 end Proofs.MapInv
